@@ -29,9 +29,10 @@ import (
 // recHash is the transparent ContentHasher: its Sum encodes which header it
 // was created for and exactly which bytes were fed to it.
 type recHash struct {
-	hdr [8]byte
-	n   uint64
-	h   hash.Hash
+	hdr      [8]byte
+	n        uint64
+	h        hash.Hash
+	sumDelay time.Duration
 }
 
 func statHash(st *types.Stat) [8]byte {
@@ -46,6 +47,9 @@ func newRecHash(st *types.Stat) *recHash {
 }
 func (r *recHash) Write(p []byte) (int, error) { r.n += uint64(len(p)); return r.h.Write(p) }
 func (r *recHash) Sum(b []byte) []byte {
+	if r.sumDelay > 0 {
+		time.Sleep(r.sumDelay) // a content hash whose finalisation takes time (large tree hashes, remote digests)
+	}
 	out := append(b, r.hdr[:]...)
 	var n [8]byte
 	binary.BigEndian.PutUint64(n[:], r.n)
@@ -84,8 +88,9 @@ type SyncOpts struct {
 	RFaults                               []hstream.Fault
 	Setup                                 func(conn *hstream.Conn, cancelS, cancelR context.CancelFunc) // extra fault wiring
 	SetupCallOnly                         func(conn *hstream.Conn, cancelS, cancelR context.CancelFunc)
-	Unpriv                                bool // run both calls without CAP_DAC_OVERRIDE
-	HasherErrAt, NotifyErrAt, FilterErrAt int  // 1-based call index, 0 = never
+	Unpriv                                bool          // run both calls without CAP_DAC_OVERRIDE
+	SumDelay                              time.Duration // the content hasher finalises this slowly
+	HasherErrAt, NotifyErrAt, FilterErrAt int           // 1-based call index, 0 = never
 	Gate                                  func(ep, op string, k int)
 	Quiet                                 bool
 	Timeout                               time.Duration
@@ -240,7 +245,9 @@ func RunSync(caseNo int, srcDir, dstDir string, o SyncOpts) (*SyncResult, error)
 				time.Sleep(o.CbDelay)
 				return nil, fmt.Errorf("injected hasher error")
 			}
-			return newRecHash(st), nil
+			h := newRecHash(st)
+			h.sumDelay = o.SumDelay
+			return h, nil
 		},
 		NotifyHashed: func(kind fsutil.ChangeKind, p string, fi os.FileInfo, err error) error {
 			cbMu.Lock()
@@ -370,11 +377,11 @@ func RunSync(caseNo int, srcDir, dstDir string, o SyncOpts) (*SyncResult, error)
 				quiesced = true
 				res.Quiesced = true
 				conn.Log(vt.Ev{"ev": "Quiesce", "sReturned": sRet, "rReturned": rRet})
+				// the STREAM is torn down (both directions fail, its contexts are cancelled); the contexts handed to the
+				// calls stay as they are: "once the stream is torn down" is all the calls may rely on
 				conn.Break()
 				conn.S.Cancel()
 				conn.R.Cancel()
-				scancel()
-				rcancel()
 				conn.Log(vt.Ev{"ev": "EnvTearDown"})
 				continue
 			}
@@ -401,6 +408,8 @@ func RunSync(caseNo int, srcDir, dstDir string, o SyncOpts) (*SyncResult, error)
 				leakSeen.Store(id, true)
 			}
 			// give up on this case so that the process can go on
+			scancel()
+			rcancel()
 			conn.S.TearDown()
 			conn.R.TearDown()
 			sRet, rRet = true, true
@@ -409,7 +418,7 @@ func RunSync(caseNo int, srcDir, dstDir string, o SyncOpts) (*SyncResult, error)
 	// goroutine leak check: anything with fsutil frames still alive shortly after both returned
 	if len(res.Hung) == 0 {
 		var leaked []string
-		for try := 0; try < 8; try++ {
+		for try := 0; try < 16; try++ { // ~2.7 s in all before anything is called a leak (a loaded machine ends goroutines late)
 			leaked = leaked[:0]
 			for id, st := range fsutilGoroutines() {
 				if _, ok := leakSeen.Load(id); ok {
